@@ -28,6 +28,7 @@ func runC02(c *Ctx) {
 	R := c.R
 	R.Rule("height-refresh", "a node whose child field was stored has its height recomputed (calcHeight, after the last child store) before it flows upwards", 8)
 	R.Rule("rebalance-on-return", "a function that stored to a child field of the subtree root it returns, returns rebalance(root) or a rotation of it", 3)
+	R.Rule("rotation-shape", "single rotations: the returned tree is (L n RL) r RR for a left rotation, LL l (LR n R) for a right rotation, in terms of the entry state", 2)
 	R.Rule("height-convention", "empty subtree = leaf height - 1; one child: 1 + its height; two children: 1 + max", 3)
 	R.Rule("rotation-table", "balance leans iff heights differ by > 1; rebalance: heavy side + strict opposite lean of the heavy child -> double rotation, else single; balanced -> unchanged", 5)
 	R.Rule("rotation-heights", "in a rotation the demoted node is linked under the promoted one and re-heighted before the promoted node's height is computed", 2)
@@ -382,10 +383,29 @@ func runC02(c *Ctx) {
 					return t.Op == "call" && strings.HasSuffix(t.Sym, suffix) && len(t.Args) >= 1 && t.Args[0].Key() == recv.Key()
 				}
 				isMax := func(t *Term) bool {
-					if !(t.Op == "call" && strings.HasSuffix(t.Sym, "typ.Max")) {
+					if !(t.Op == "call" && strings.HasSuffix(t.Sym, "typ.Max")) || len(t.Args) != 1 {
 						return false
 					}
-					return true
+					// the variadic array must hold exactly this node's two child heights
+					arr := t.Args[0]
+					for arr != nil && arr.Op == "slice" {
+						arr = arr.Args[0]
+					}
+					sawL, sawR, other := false, false, false
+					for i := range p.Events {
+						e := &p.Events[i]
+						if e.Kind == "store" && e.Addr.Op == "iaddr" && arr != nil && e.Addr.Args[0].Key() == arr.Key() {
+							switch {
+							case isCall(e.Val, "leftHeight"):
+								sawL = true
+							case isCall(e.Val, "rightHeight"):
+								sawR = true
+							default:
+								other = true
+							}
+						}
+					}
+					return sawL && sawR && !other
 				}
 				onePlus := func(pred func(*Term) bool) bool {
 					if pl.M[""] != 1 || len(pl.M) != 2 {
@@ -631,6 +651,43 @@ func runC02(c *Ctx) {
 			}
 		}
 		R.Decide(found != "", "rotation-table", "avl.(*node)", "rotation-"+want, "", "rotation of kind "+want+": "+found, "no function implements the "+want+" rotation structurally")
+	}
+	// ---- rotation-shape: a single rotation promotes the heavy child and re-hangs the three subtrees in order
+	for _, fi := range nodeFuncs {
+		k := kind[fi]
+		if k != "L" && k != "R" {
+			continue
+		}
+		recv := paramOf(fi, 0)
+		ok, why := true, ""
+		for _, p := range paths[fi] {
+			if p.End != EndReturn || len(p.Rets) != 1 {
+				continue
+			}
+			s := newShapeEnv(a, p, func(string) bool { return false })
+			s.paren = true
+			T := func(x *Term) string { return join(s.seq(shapeMem{}, x, 1)) }
+			nl, nr := a.initLoad(recv, a.nLeft), a.initLoad(recv, a.nRight)
+			vn := "V(" + nodeKey(a.initLoad(recv, a.nValue)) + ")"
+			var want string
+			if k == "L" {
+				r := nr
+				vr := "V(" + nodeKey(a.initLoad(r, a.nValue)) + ")"
+				want = "( ( " + T(nl) + " " + vn + " " + T(a.initLoad(r, a.nLeft)) + " ) " + vr + " " + T(a.initLoad(r, a.nRight)) + " )"
+			} else {
+				l := nl
+				vl := "V(" + nodeKey(a.initLoad(l, a.nValue)) + ")"
+				want = "( " + T(a.initLoad(l, a.nLeft)) + " " + vl + " ( " + T(a.initLoad(l, a.nRight)) + " " + vn + " " + T(nr) + " ) )"
+			}
+			got := join(s.seq(s.final(), p.Rets[0], 0))
+			if got != want {
+				ok, why = false, fmt.Sprintf("on path (%s) the returned tree has the shape %s; a %s-rotation yields %s", p.CondString(), got, map[string]string{"L": "left", "R": "right"}[k], want)
+			}
+		}
+		o := R.Decide(ok, "rotation-shape", fi.Name, "relink", c.pos(fi), "the heavy child becomes the root, the old root its inner child, the three subtrees keep their order", why)
+		if !ok {
+			o.Breaks = "the rotation does not reduce the lean (or loses a subtree): balance is not restored"
+		}
 	}
 	// ---- rotation-heights
 	for fi, k := range kind {
